@@ -554,6 +554,11 @@ where
             effective_domain = rp_id;
         }
 
+        // The localhost exception is only meant for requests coming from `localhost` itself.
+        if effective_domain == "localhost" && origin.domain() != Some("localhost") {
+            return Err(WebauthnError::InvalidRpId);
+        }
+
         // Guard against local host and assert rp_id is not part of the public suffix list
         if let ControlFlow::Break(res) = self.assert_valid_rp_id(effective_domain) {
             return res;
